@@ -243,7 +243,7 @@ func blendSweep(e *fw.Env, r *fw.Result) {
 func init() {
 	fw.Register(&fw.Check{
 		ID: "C09", Level: "model_checking", Shards: shards16,
-		Rule: "explicit-state BFS over the real AnimDecoder: transition = NextFrame on one more frame from a 252-frame alphabet on a 4x4 canvas (rectangle in/partly out/outside/larger x blend x dispose x HasAlpha x 7 pixel fills), depth 3 quick / up to 6 thorough, states merged by reflection hash of the decoder's private state + model state; every history also checks Reset-replay and snapshot immutability; blend arithmetic swept over all alpha pairs x channel grid (thorough: all 2^32 operand tuples)",
+		Rule:   "explicit-state BFS over the real AnimDecoder: transition = NextFrame on one more frame from a 252-frame alphabet on a 4x4 canvas (rectangle in/partly out/outside/larger x blend x dispose x HasAlpha x 7 pixel fills), depth 3 quick / up to 6 thorough, states merged by reflection hash of the decoder's private state + model state; every history also checks Reset-replay and snapshot immutability; blend arithmetic swept over all alpha pairs x channel grid (thorough: all 2^32 operand tuples)",
 		Assume: []string{"reference compositor written from the container specification, checked step-wise against the previous verified canvas (no key-frame shortcut)", "blend results accept libwebp's documented integer formula or the specification's real formula within rounding", "state merging skips AnimDecoder.anim and canonicalises pos to min(pos,1) (argument in c09.go)"},
 		Run: func(e *fw.Env, r *fw.Result) {
 			pin()
